@@ -85,6 +85,36 @@ std::optional<sqf::runtime::fileio::pathinfo> sqf::fileio::impl_default::get_inf
         }
     }
 
+    // Resolve `.` and `..` lexically before exploring: whatever directory a `..` follows, it steps
+    // back over that segment (not only over mapped tree nodes), and a request climbing above what it
+    // started from is no valid path.
+    {
+        std::vector<std::string> segments;
+        bool leading_dir_ups = true;
+        std::string normalized = virt[0] == '/' ? "/" : "";
+        std::istringstream stream_norm(virt);
+        for (auto it = std::istream_iterator<StringDelimiter<'/'>>{ stream_norm }; it != std::istream_iterator<StringDelimiter<'/'>>{}; ++it)
+        {
+            if (it->empty() || *it == "."s) { continue; }
+            if (*it == ".."s)
+            {
+                if (!segments.empty() && segments.back() != ".."s) { segments.pop_back(); continue; }
+                if (virt[0] == '/') { return {}; } // above the virtual root
+            }
+            segments.push_back(*it);
+        }
+        for (size_t i = 0; i < segments.size(); i++)
+        {
+            if (i != 0) { normalized.append("/"); }
+            normalized.append(segments[i]);
+        }
+        virt = normalized;
+        if (virt.empty())
+        {
+            return {};
+        }
+    }
+
     // Explore further until we hit dead-end
     {
         std::istringstream stream_virt(virt);
